@@ -40,13 +40,15 @@ def cases(tier):
             out.append(("wf", ["K", D, v, 3.0]))
         for a, b in itertools.product(VALS, VALS):
             out.append(("wf", ["R", D, a, b]))
-        for vals in ([0.0, 1.0], [1.0, -2.0, 20.0], [0.0, 1e-3, 1.0, 0.0], [-2.0, -2.0]):
+        for vals in ([0.0, 1.0], [1.0, -2.0, 20.0], [0.0, 1e-3, 1.0, 0.0], [-2.0, -2.0], [0.0, 0.0, 0.0], [0.0, 0.0], [1e-300, 0.0], [5e-324, -5e-324, 0.0]):
             out.append(("wf", ["I", D, vals]))
             out.append(("wf", ["I", D, vals, {"interpolator": "interp1d"}]))
         out.append(("wf", ["I", D, [0.0, 2.0, 1.0], {"times": [0.0, 0.5, 1.0]}]))
         out.append(("wf", ["I", D, [0.0, 2.0, 1.0], {"times": [0.0, 0.1, 1.0]}]))
         out.append(("wf", ["I", D, [0.0, 2.0, 1.0], {"times": [0.0, 0.999, 1.0]}]))
         out.append(("wf", ["X", [((-1) ** i) * 0.5 * i for i in range(D)]]))
+        out.append(("wf", ["X", [0.0] * D]))  # all-zero waveforms of every class (a flat zero detuning, a waveform times 0)
+        out.append(("wf", ["+", ["C", D, 0.0], ["R", max(1, D // 2), 0.0, 0.0]]))
         out.append(("wf", ["+", ["C", D, 1.0], ["R", max(1, D // 2), 0.0, 2.0], ["X", [3.0] * min(D, 3)]]))
     # large values of both signs whose integral cancels (equality / algebra must not go through derived quantities)
     out.append(("wf", ["R", 500, -60.0, 60.0]))
